@@ -68,6 +68,7 @@ def build(rng):
 
 def gen_batch(rng, trx, roadm_of):
     reqs, kinds = [], {}
+    SYNCS.clear()
     n = rng.randint(2, 9)
     i = 0
     while i < n:
@@ -109,6 +110,16 @@ def gen_batch(rng, trx, roadm_of):
             reqs.append(r2_)
             kinds[r2_['request-id']] = 'duplicate'
             i += 1
+            if i < n and len(trx) >= 3 and not SYNCS and rng.random() < 0.5:
+                # both identical requests must be disjoint from the same third request: they are still aggregated,
+                # and the joined request inherits the disjunction
+                t = S.request(f'q{i}', a, G.pick(rng, [x for x in trx if x not in (a, z)]), **dict(kw, bidir=False))
+                reqs.append(t)
+                kinds[t['request-id']] = 'duplicate-sync-peer'
+                SYNCS.append(S.synchronization(900, [r['request-id'], t['request-id']]))
+                SYNCS.append(S.synchronization(901, [r2_['request-id'], t['request-id']]))
+                kinds[r['request-id']] = kinds[r2_['request-id']] = 'duplicate-in-sync'
+                i += 1
     return reqs, kinds
 
 
@@ -121,20 +132,25 @@ def agg_key(r):
 
 
 def expected_groups(reqs):
-    """Requests that are identical (mode given) are aggregated: sets of ids and summed bandwidth."""
+    """Requests that are identical (mode given) and must be disjoint from the same other requests (or from none)
+    are aggregated: sets of ids and summed bandwidth."""
+    def peers(rid):
+        return frozenset(x for sv in SYNCS if rid in sv['svec']['request-id-number']
+                         for x in sv['svec']['request-id-number'] if x != rid)
     groups = []
     for r in reqs:
         te = r['path-constraints']['te-bandwidth']
         placed = False
         if te['trx_mode'] is not None:
             for g in groups:
-                if g['key'] == agg_key(r) and g['mode'] is not None:
+                if g['key'] == agg_key(r) and g['mode'] is not None and g['peers'] == peers(r['request-id']):
                     g['ids'].append(r['request-id'])
                     g['bw'] += te['path_bandwidth']
                     placed = True
                     break
         if not placed:
-            groups.append({'key': agg_key(r), 'mode': te['trx_mode'], 'ids': [r['request-id']], 'bw': te['path_bandwidth']})
+            groups.append({'key': agg_key(r), 'mode': te['trx_mode'], 'ids': [r['request-id']], 'bw': te['path_bandwidth'],
+                           'peers': peers(r['request-id'])})
     return groups
 
 
@@ -158,6 +174,7 @@ def expected_metrics(rx, rq):
             'reference_power': rq.power, 'path_bandwidth': rq.path_bandwidth}
 
 
+SYNCS = []
 RECEIVER_KEYS = ('SNR-bandwidth', 'SNR-0.1nm', 'OSNR-bandwidth', 'OSNR-0.1nm', 'lowest_SNR-0.1nm', 'biggest_SNR-0.1nm',
                  'PDL_penalty', 'CD_penalty', 'PMD_penalty')
 
@@ -360,6 +377,9 @@ def run_case(case, ctx):
     trx = sorted(model.roadm_of)
     reqs, kinds = gen_batch(rng, trx, model.roadm_of)
     data = {'path-request': reqs}
+    if SYNCS:
+        data['synchronization'] = deepcopy(SYNCS)
+        ctx.count('batches_with_aggregated_requests_in_a_disjunction')
     ctx.dump.update({'topology': tj, 'services': data})
     groups = expected_groups(reqs)
     # event log: the receiver figures at the moment each propagation of the batch ends (copied values, not objects)
